@@ -180,3 +180,86 @@ Example pool_example :
   exists s, pool_run 1 [Main; Wk 1; Main; Wk 0; Wk 1; Main; Wk 1; Wk 0; Main; Wk 0; Main; Wk 1; Wk 1] (pool_init [5; 6; 7] 2) = Some s /\
             pool_finished s = true /\ handled s = [(1, 5); (0, 6); (1, 7)].
 Proof. eexists. split; [vm_compute; reflexivity|]. split; reflexivity. Qed.
+
+(* ------------------------------------------------------------------------------------------- *)
+(* handlers that may throw: a consumed request is handled or the process ends -- it is never dropped *)
+Section PoolFail.
+Variable cap w : nat.
+Variable reqs : list nat.
+Variable fails : nat -> bool.
+Hypothesis Hcap : 1 <= cap.
+Hypothesis Hw : 1 <= w.
+
+Lemma pool_step_f_inv : forall s t s', PInv w reqs (fst s) -> pool_step_f cap fails s t = Some s' -> PInv w reqs (fst s').
+Proof.
+  intros [p ab] t [p' ab'] HI Hs. unfold pool_step_f in Hs. simpl in *. destruct ab; [discriminate|].
+  assert (G : forall t0, option_map (fun q => (q, false)) (pool_step cap p t0) = Some (p', ab') -> PInv w reqs p').
+  { intros t0 E. destruct (pool_step cap p t0) as [q|] eqn:Eq; [|discriminate]. injection E as <- <-.
+    exact (pool_step_inv cap w reqs Hcap Hw _ _ _ HI Eq). }
+  destruct t as [|j]; [eapply G; exact Hs|].
+  destruct (nth_error (pws p) j) as [[|r|]|]; try (eapply G; exact Hs).
+  destruct (fails r); [injection Hs as <- <-; exact HI|eapply G; exact Hs].
+Qed.
+
+Lemma pool_run_f_none : forall sched, fold_left (fun o t => match o with Some x => pool_step_f cap fails x t | None => None end) sched None = None.
+Proof. induction sched; simpl; auto. Qed.
+Lemma pool_run_f_inv : forall sched s s', PInv w reqs (fst s) -> pool_run_f cap fails sched s = Some s' -> PInv w reqs (fst s').
+Proof.
+  induction sched as [|t sched IH]; intros s s' HI Hr; unfold pool_run_f in Hr; simpl in Hr.
+  - injection Hr as <-. exact HI.
+  - destruct (pool_step_f cap fails s t) as [s1|] eqn:E; [|rewrite pool_run_f_none in Hr; discriminate].
+    apply (IH s1); [eapply pool_step_f_inv; eassumption|exact Hr].
+Qed.
+Definition pool_reachable_f (s : pool * bool) : Prop := exists sched, pool_run_f cap fails sched (pool_init reqs w, false) = Some s.
+
+(* whatever the handlers do, every request is at every moment in exactly one place: a worker never drops one *)
+Theorem pool_f_never_drops : forall s, pool_reachable_f s -> forall r,
+  cnt (did r) (handled (fst s)) + cnt (holds r) (pws (fst s)) + cnt (is_req r) (pq (fst s)) + cnt (is_req r) (todo (fst s)) = cnt (Nat.eqb r) reqs.
+Proof. intros s [sched H] r. apply (pool_run_f_inv sched (pool_init reqs w, false) s (pool_init_inv cap w reqs Hcap Hw) H). Qed.
+
+(* the run always ends: until everything is finished or the process has been aborted some thread can step
+   (a worker whose handler throws can step too: its step is the abort) *)
+Theorem pool_f_no_hang : forall s, pool_reachable_f s -> snd s = false -> pool_finished (fst s) = false ->
+  exists t s', pool_step_f cap fails s t = Some s'.
+Proof.
+  intros [p ab] [sched H] Hab Hf. simpl in *. subst ab.
+  pose proof (pool_run_f_inv sched (pool_init reqs w, false) _ (pool_init_inv cap w reqs Hcap Hw) H) as [H1 (taken & H2 & H2') H3]. simpl in *.
+  pose proof (wst_split cap w Hcap Hw (pws p)) as Hsp.
+  destruct (Nat.eq_dec (cnt is_hold (pws p)) 0) as [Hh|Hh].
+  2:{ destruct (cnt_pos_ex _ is_hold (pws p) ltac:(lia)) as (j & [|r|] & Hn & Hx); try discriminate.
+      exists (Wk j). unfold pool_step_f. simpl. rewrite Hn. destruct (fails r); [eauto|]. simpl. rewrite ?Hn. simpl. eauto. }
+  (* no worker holds a request: the failure oracle plays no role, reuse the argument for handlers that cannot fail *)
+  assert (Hnf : forall t q, pool_step cap p t = Some q -> exists s', pool_step_f cap fails (p, false) t = Some s').
+  { intros t q E. unfold pool_step_f. simpl. destruct t as [|j]; [rewrite E; simpl; eauto|].
+    destruct (nth_error (pws p) j) as [[|r|]|] eqn:Hn; try (rewrite E; simpl; eauto).
+    exfalso. pose proof (cnt_nth_pos _ is_hold _ _ _ Hn eq_refl). lia. }
+  destruct (pq p) as [|x q'] eqn:Eq.
+  - destruct (todo p) as [|y rest] eqn:Et.
+    + exfalso. simpl in H2. rewrite app_nil_r in H2. unfold pool_finished in Hf. rewrite Eq, Et in Hf.
+      assert (cnt is_poison taken = w).
+      { rewrite <- H2. unfold stream. rewrite cnt_app, cnt_repeat. simpl.
+        assert (cnt is_poison (map Req reqs) = 0) by (clear; induction reqs; simpl; auto). lia. }
+      rewrite (cnt_all cap w Hcap Hw _ is_done (pws p)) in Hf; [discriminate|lia].
+    + exists Main. apply (Hnf Main (mkpool rest (pq p ++ [y]) (pws p) (handled p))). simpl. rewrite Et, Eq. simpl.
+      destruct cap; [lia|]. reflexivity.
+  - destruct (Nat.eq_dec (cnt is_idle (pws p)) 0) as [Hi|Hi].
+    2:{ destruct (cnt_pos_ex _ is_idle (pws p) ltac:(lia)) as (j & [|r|] & Hn & Hx); try discriminate.
+        exists (Wk j). destruct x as [r|].
+        - apply (Hnf (Wk j) (mkpool (todo p) q' (upd (pws p) j (WHold r)) (handled p))). simpl. rewrite Hn, Eq. reflexivity.
+        - apply (Hnf (Wk j) (mkpool (todo p) q' (upd (pws p) j WDone) (handled p))). simpl. rewrite Hn, Eq. reflexivity. }
+    exfalso. rewrite <- Eq in H2.
+    assert (Hall : cnt is_poison taken = w) by lia.
+    assert (Hrest : cnt is_poison (pq p ++ todo p) = 0).
+    { assert (cnt is_poison (stream w reqs) = w).
+      { unfold stream. rewrite cnt_app, cnt_repeat. simpl.
+        assert (cnt is_poison (map Req reqs) = 0) by (clear; induction reqs; simpl; auto). lia. }
+      rewrite H2, cnt_app in H0. lia. }
+    assert (Hne : pq p ++ todo p <> []) by (rewrite Eq; discriminate).
+    assert (Hlast : last (pq p ++ todo p) Poison = Poison).
+    { assert (last (stream w reqs) Poison = Poison).
+      { unfold stream. destruct w as [|w']; [lia|]. rewrite last_app_ne by (simpl; discriminate).
+        clear. induction w'; simpl in *; auto. }
+      rewrite H2 in H0. rewrite last_app_ne in H0 by exact Hne. exact H0. }
+    pose proof (cnt_last_pos _ is_poison (pq p ++ todo p) Poison Hne) as Hp. rewrite Hlast in Hp. specialize (Hp eq_refl). lia.
+Qed.
+End PoolFail.
